@@ -574,6 +574,55 @@ def reword_messages(text: str) -> str:
     return ast.unparse(ast.fix_missing_locations(tree)) + "\n"
 
 
+def annotate_everything(text: str) -> str:
+    """Behaviour-preserving: type hints on every attribute store in a method (`self.x: object = v`), on the first assignment
+    of every plain local, on parameters and returns."""
+    tree = ast.parse(text)
+    for fn in [n for n in ast.walk(tree) if isinstance(n, (ast.FunctionDef,))]:
+        for a in fn.args.args[1:] if fn.args.args and fn.args.args[0].arg in ("self", "cls") else fn.args.args:
+            if a.annotation is None:
+                a.annotation = ast.Name(id="object", ctx=ast.Load())
+        for holder in ast.walk(fn):
+            for fld in ("body", "orelse", "finalbody"):
+                block = getattr(holder, fld, None)
+                if not (isinstance(block, list) and block and isinstance(block[0], ast.stmt)):
+                    continue
+                for i, st in enumerate(block):
+                    if isinstance(st, ast.Assign) and len(st.targets) == 1 and isinstance(st.targets[0], ast.Attribute) and isinstance(st.targets[0].value, ast.Name) \
+                            and st.targets[0].value.id == "self":
+                        block[i] = ast.copy_location(ast.AnnAssign(target=st.targets[0], annotation=ast.Name(id="object", ctx=ast.Load()), value=st.value, simple=0), st)
+    return ast.unparse(ast.fix_missing_locations(tree)) + "\n"
+
+
+def loops_to_if_quantifiers(text: str) -> str:
+    """Behaviour-preserving: `for x in it: if P: return C / raise E` (nothing else in the loop, C a constant) becomes
+    `if any(P for x in it): return C / raise E`; `if not P` becomes `if not all(P …)`."""
+    tree = ast.parse(text)
+    for holder in ast.walk(tree):
+        for fld in ("body", "orelse", "finalbody"):
+            block = getattr(holder, fld, None)
+            if not (isinstance(block, list) and block and isinstance(block[0], ast.stmt)):
+                continue
+            for i, st in enumerate(block):
+                if not (isinstance(st, ast.For) and not st.orelse and len(st.body) == 1 and isinstance(st.body[0], ast.If) and not st.body[0].orelse):
+                    continue
+                inner = st.body[0]
+                if not (len(inner.body) == 1 and ((isinstance(inner.body[0], ast.Return) and isinstance(inner.body[0].value, ast.Constant)) or isinstance(inner.body[0], ast.Raise))):
+                    continue
+                tnames = {x.id for x in ast.walk(st.target) if isinstance(x, ast.Name)}
+                if any(isinstance(x, ast.Name) and x.id in tnames for x in ast.walk(inner.body[0])):
+                    continue  # the exit statement uses the loop variable (e.g. in its message)
+                if any(isinstance(x, (ast.NamedExpr, ast.Yield, ast.Await)) for x in ast.walk(inner.test)):
+                    continue
+                t = inner.test
+                if isinstance(t, ast.UnaryOp) and isinstance(t.op, ast.Not):
+                    q = ast.UnaryOp(op=ast.Not(), operand=ast.Call(func=ast.Name(id="all", ctx=ast.Load()), args=[ast.GeneratorExp(elt=t.operand, generators=[ast.comprehension(target=st.target, iter=st.iter, ifs=[], is_async=0)])], keywords=[]))
+                else:
+                    q = ast.Call(func=ast.Name(id="any", ctx=ast.Load()), args=[ast.GeneratorExp(elt=t, generators=[ast.comprehension(target=st.target, iter=st.iter, ifs=[], is_async=0)])], keywords=[])
+                block[i] = ast.copy_location(ast.If(test=q, body=inner.body, orelse=[]), st)
+    return ast.unparse(ast.fix_missing_locations(tree)) + "\n"
+
+
 def alias_self_attributes(text: str) -> str:
     """Behaviour-preserving: inside every method, an attribute `self.X` that the method reads at least twice and that is
     never stored (in this module: not by this method, its nested functions, nor anywhere outside constructors) is read once
@@ -676,6 +725,10 @@ def _judge(args):
             edits.append((file, reword_messages))
         elif special == "aliasattr":
             edits.append((file, alias_self_attributes))
+        elif special == "annotate":
+            edits.append((file, annotate_everything))
+        elif special == "ifquant":
+            edits.append((file, loops_to_if_quantifiers))
         elif special == "patch":
             patch_file = os.path.join(HERE, "variant_patches", new)
         else:
@@ -825,7 +878,7 @@ def run(prop: str, seed: int, root: str, coverage_out: dict, jobs: int = 16, onl
     rnd.shuffle(vs)
     tasks = []
     for v in vs:
-        special = {"<unparse>": "unparse", "<rename-locals>": "rename", "<flip-comparisons>": "flip", "<invert-ifelse>": "invert", "<hoist-conditions>": "hoist", "<extract-helpers>": "extract", "<expand-augassign>": "augexp", "<len-as-condition>": "lencond", "<fstring-to-concat>": "fconcat", "<loops-to-all>": "toall", "<comprehension-to-loop>": "comploop", "<patch>": "patch", "<args-to-keywords>": "argkw", "<npsum-to-method>": "npsum", "<reword-messages>": "reword", "<alias-self-attributes>": "aliasattr"}.get(v.old)
+        special = {"<unparse>": "unparse", "<rename-locals>": "rename", "<flip-comparisons>": "flip", "<invert-ifelse>": "invert", "<hoist-conditions>": "hoist", "<extract-helpers>": "extract", "<expand-augassign>": "augexp", "<len-as-condition>": "lencond", "<fstring-to-concat>": "fconcat", "<loops-to-all>": "toall", "<comprehension-to-loop>": "comploop", "<patch>": "patch", "<args-to-keywords>": "argkw", "<npsum-to-method>": "npsum", "<reword-messages>": "reword", "<alias-self-attributes>": "aliasattr", "<annotate>": "annotate", "<loops-to-if-quantifiers>": "ifquant"}.get(v.old)
         files = v.file.split(",") if special else [v.file]
         tasks.append((v.vid, v.kind, prop, v.rules, root, [(f, v.old, v.new, v.count, special) for f in files] + [(f2, o2, n2, 1, None) for f2, o2, n2 in v.extra], v.accept_undecided))
     results = []
